@@ -456,11 +456,13 @@ def main(tier):
         plan = [("C06_unit", dict(perturb_every=4, t16_every=3, workers=4)),
                 ("C06_roots", dict(perturb_every=1, workers=2)),
                 ("C06_dev", dict(perturb_every=4, t16_every=3, workers=3)),
+                ("C06_ign4", dict(perturb_every=8, t16_every=8, workers=3)),
                 ("C06_rand", dict(simulate=107, depth=12, perturb_every=1, workers=3))]   # simulate = traces per worker
     else:
         plan = [("C06_unit_deep", dict(perturb_every=1, workers=3)),
                 ("C06_small", dict(perturb_every=2, workers=3)),
                 ("C06_dev", dict(perturb_every=1, workers=3)),
+                ("C06_ign4", dict(perturb_every=2, t16_every=2, workers=3)),
                 ("C06_deep", dict(perturb_every=4, t16_every=2, timeout=2400, workers=4)),
                 ("C06_rand", dict(simulate=1067, depth=12, perturb_every=1, timeout=2400, workers=3))]
     # TLC runs of later sets overlap with the replay of earlier ones (three at a time + the design run: <= 12 TLC workers)
